@@ -91,7 +91,7 @@ ConvertLaws ==
            \* only floating type names and unsuffixed floating constants change
            /\ \A k \in 1..Len(T) :
                 Plain(ConvTok(T[k], k, p)) # Plain(<<T[k]>>)
-                  => TokClass0(T[k]) \in {"decfloat", "decfloat-leading-zero", "hexfloat", "type-keyword", "vector-type"}
+                  => TokClass(T[k]) \in {"decfloat", "decfloat-leading-zero", "hexfloat", "type-keyword", "vector-type"}
            \* no double-precision type name is left in the single-precision text; converting twice
            \* to single changes nothing more
            /\ (p = 32 => /\ \A i \in 1..Len(C) : TokClass(C[i]) \notin {"type-keyword", "vector-type"}
